@@ -24,6 +24,7 @@ import (
 	"encoding/hex"
 	"fmt"
 	"os"
+	"path/filepath"
 	"runtime"
 	"sort"
 	"strconv"
@@ -494,7 +495,7 @@ func main() {
 	out := os.Getenv("VERIF_OUT")
 	n, reps := 60, 25
 	if tier == "thorough" {
-		n, reps = 2000, 50
+		n, reps = 1000, 50
 	}
 	if v := os.Getenv("VERIF_N"); v != "" {
 		n, _ = strconv.Atoi(v)
@@ -523,12 +524,20 @@ func main() {
 	dw := bufio.NewWriter(df)
 	cf, _ := os.Create(out)
 	cw := bufio.NewWriter(cf)
-	evals, nontrivial, loadFailed, reloadDone, rebuildDone := 0, 0, 0, 0, 0
+	evals, nontrivial, loadFailed, reloadDone, rebuildDone, netFiles, histories := 0, 0, 0, 0, 0, 0, 0
+	scratch := os.Getenv("VERIF_SCRATCH")
+	if scratch == "" {
+		scratch = filepath.Dir(out)
+	}
 	distinct := map[[32]byte]bool{}
 	var samples []string
 	for i := 0; i < n; i++ {
 		r := &rng{s: seed*7919 + uint64(i)}
-		sp := genSpec(r, genOpts{Ties: i%5 != 4, MaxDepth: 1 + i%3})
+		opts := genOpts{Ties: i%5 != 4, MaxDepth: 1 + i%3}
+		if i%3 == 1 { // 1..9 buses for ExportNetwork
+			opts.Buses = 1 + (i/3)%9
+		}
+		sp := genSpec(r, opts)
 		if i%8 == 5 {
 			addDeepChain(sp, r, 3+(i/8)%3)
 		}
@@ -614,6 +623,29 @@ func main() {
 				}
 			}
 		}
+		// D: ExportNetwork, one file per bus, under GOMAXPROCS 1,2,3,4,8,16
+		kinds[fmt.Sprintf("buses-%d", len(sp.Buses))]++
+		if o0.err == "" {
+			s, d, cnt := checkExportNetwork(b0.Net, o0.dbc, scratch, fmt.Sprintf("c%d", i))
+			evals += cnt
+			netFiles += cnt
+			if s != "" {
+				fail(s, size, i, d)
+			}
+		}
+		// E: histories with reads interleaved
+		hr := checkHistory(sp, seed^uint64(i*977+3), idTies)
+		evals += hr.compared
+		histories += hr.compared
+		for k, v := range hr.applied {
+			kinds["mutation-"+k] += v
+		}
+		if hr.kind != "" {
+			fail(hr.kind, size, i, hr.detail)
+		}
+		if hr.final != nil && hr.kind == "" && hr.out.err == "" {
+			writeCase(cw, 1000000+i, sp, hr.final, hr.out)
+		}
 		// digest of the id-free outputs for the comparison across processes (GOMAXPROCS env)
 		if !idTies {
 			hh := sha256.New()
@@ -642,8 +674,8 @@ func main() {
 	cw.Flush()
 	cf.Close()
 	sf, _ := os.Create(out + ".summary")
-	fmt.Fprintf(sf, "cases %d\nevaluations %d\nnontrivial %d\ndistinct %d\nloadfailed %d\nreloads %d\nrebuilds %d\ngomaxprocs %d\nreps %d\n",
-		n, evals, nontrivial, len(distinct), loadFailed, reloadDone, rebuildDone, envProcs, reps)
+	fmt.Fprintf(sf, "cases %d\nevaluations %d\nnontrivial %d\ndistinct %d\nloadfailed %d\nreloads %d\nrebuilds %d\ngomaxprocs %d\nreps %d\nnetworkfiles %d\nhistories %d\n",
+		n, evals, nontrivial, len(distinct), loadFailed, reloadDone, rebuildDone, envProcs, reps, netFiles, histories)
 	keys := make([]string, 0, len(kinds))
 	for k := range kinds {
 		keys = append(keys, k)
